@@ -159,7 +159,8 @@ def gen(seed, tier):
         # wrapped in a DemoStorage (blobs of the changes in a temporary
         # directory), through which the rest runs
         ops.insert(r.randrange(len(ops) // 2 + 1), ['wrap'])
-    return {'kind': kind, 'ops': ops,
+    return {'kind': kind, 'ops': ops, 'hex': kind == 'file' and
+            r.random() < 0.2,
             'st_opts': {'pack_gc': r.random() < 0.5,
                         'pack_keep_old': r.random() < 0.5},
             'bufsize': r.choice((64, 8192)), 'tick': 0.37, 'tier': tier}
@@ -230,6 +231,12 @@ class M:
             from ZODB.FileStorage import FileStorage
             self.st = FileStorage(dbh.PATH, blob_dir=self.blob_dir,
                                   **case['st_opts'])
+            if case.get('hex'):
+                # a record-transforming wrapper (as zc.zlibstorage or an
+                # encrypting storage): what the file storage sees of a
+                # record is not the pickle
+                from ZODB.tests.hexstorage import HexStorage
+                self.st = HexStorage(self.st)
         elif self.kind == 'proxy':
             # the BlobStorage proxy over a storage with undo
             from ZODB.blob import BlobStorage
